@@ -164,11 +164,16 @@ func (schema *Schema) Merge(other *Schema) error {
 }
 
 func (schema *Schema) DeepCopy() Schema {
+	entryPointType := schema.EntryPointType
+	if entryPointType.Kind != "" {
+		entryPointType = schema.EntryPointType.DeepCopy()
+	}
+
 	return Schema{
 		Package:        schema.Package,
 		Metadata:       schema.Metadata,
 		EntryPoint:     schema.EntryPoint,
-		EntryPointType: schema.EntryPointType,
+		EntryPointType: entryPointType,
 		Objects: schema.Objects.Map(func(_ string, object Object) Object {
 			return object.DeepCopy()
 		}),
